@@ -7,7 +7,7 @@ constants, defaults, key table and header template to the source.
 Parameters, not proved (DESIGN §5 K3): float rendering (`repr`, `:g`) and `unidecode` — the writer emits tokens;
 hit / hold / sample lines contain integers only and are proved down to the characters.
 -/
-import Reamber.Lemmas.OsuRt
+import Reamber.Lemmas.OsuLines
 import Reamber.Generated.OsuTables
 
 namespace Reamber.Osu
@@ -204,5 +204,46 @@ theorem meta_numeric_any (m : Meta) (v : Str) (rest : List Str) (q : Rat) (i : I
      · unfold metaAssign; simp [mFloat, mInt, h, bind, Except.bind, pure, Except.pure])
 
 example : (metaStep {} "Title:a:b: c".toList []).toOption.map (·.title) = some "a:b: c".toList := by decide +kernel
+
+/-! ## read ∘ write, line by line, down to the characters -/
+
+/-- **Reading what was written gives the quantized object, for every key count 1..256, every column, every time
+(negative, fractional, large), every hitsound field, every file name without `,` `:`** — hit, hold and sample lines
+(proved for every instantiation of the renderer: these lines contain integers only). -/
+theorem line_roundtrip (R : Render) (k : Int) (hk : 0 < k) (hk' : k ≤ 256) :
+    (∀ h : Hit, 0 ≤ h.column → h.column < k → ',' ∉ h.file → ':' ∉ h.file →
+        readHit (R.line (writeHit h k)) k = .ok (qHit h)) ∧
+    (∀ h : Hold, 0 ≤ h.column → h.column < k → ',' ∉ h.file → ':' ∉ h.file →
+        readHold (R.line (writeHold h k)) k = .ok (qHold h)) ∧
+    (∀ s : Sample, ',' ∉ s.file → readSample (R.line (writeSample s)) = .ok (qSample s)) :=
+  ⟨fun h a b c d => readHit_writeHit R h k hk hk' a b c d, fun h a b c d => readHold_writeHold R h k hk hk' a b c d,
+   fun s a => readSample_writeSample R s a⟩
+
+/-- **no drift, at the text level**: writing and reading an object that has already been through one cycle
+reproduces it exactly — generation n+1 = generation 1 -/
+theorem line_no_drift (R : Render) (k : Int) (hk : 0 < k) (hk' : k ≤ 256) (h : Hit) (hd : Hold)
+    (h1 : 0 ≤ h.column) (h2 : h.column < k) (h3 : ',' ∉ h.file) (h4 : ':' ∉ h.file)
+    (d1 : 0 ≤ hd.column) (d2 : hd.column < k) (d3 : ',' ∉ hd.file) (d4 : ':' ∉ hd.file) :
+    readHit (R.line (writeHit (qHit h) k)) k = .ok (qHit h) ∧
+    readHold (R.line (writeHold (qHold hd) k)) k = .ok (qHold hd) := by
+  constructor
+  · have := readHit_writeHit R (qHit h) k hk hk' h1 h2 h3 h4
+    rw [qHit_idem] at this; exact this
+  · have := readHold_writeHold R (qHold hd) k hk hk' d1 d2 d3 d4
+    rw [qHold_idem] at this; exact this
+
+example : (readHold (intRender.line (writeHold { offset := -21/2, column := 3, length := 21/4 } 4)) 4).toOption =
+    some { offset := -10, column := 3, length := 5 } := by decide +kernel
+
+/-- tempo and scroll-velocity lines, parametric in the float renderer (hypotheses: `repr` reads back exactly and
+contains no comma, for the numbers of this very line) -/
+theorem timing_line_roundtrip (R : Render) :
+    (∀ b : Bpm, b.bpm ≠ 0 → readFloat (R.repr b.offset) = .ok b.offset →
+        readFloat (R.repr (bpmCode b.bpm)) = .ok (bpmCode b.bpm) → ',' ∉ R.repr b.offset →
+        ',' ∉ R.repr (bpmCode b.bpm) → readBpm (R.line (writeBpm b)) = .ok (qBpm b)) ∧
+    (∀ b : Sv, b.multiplier ≠ 0 → readFloat (R.repr b.offset) = .ok b.offset →
+        readFloat (R.repr (svCode b.multiplier)) = .ok (svCode b.multiplier) → ',' ∉ R.repr b.offset →
+        ',' ∉ R.repr (svCode b.multiplier) → readSv (R.line (writeSv b)) = .ok b) :=
+  ⟨fun b a c d e f => readBpm_writeBpm R b a c d e f, fun b a c d e f => readSv_writeSv R b a c d e f⟩
 
 end Reamber.Osu
